@@ -330,6 +330,22 @@ var entryPoints = []entryPoint{
 	{"list.SetTF-through-padding", func(v any) slot {
 		return slot{l: at.NewList().SetTF("#2.x", 1).SetTF("#1#0", v).GetList(1), idx: 0}
 	}},
+	{"NewListOf-no-copies-then-Add", func(v any) slot {
+		l := at.NewListOf(v, 0)
+		l.Add(v)
+		return slot{l: at.NewList("holder", l).GetList(1), idx: 0}
+	}},
+	{"list.SetTF-padding-a-list-that-was-longer", func(v any) slot {
+		l := at.NewList("a", 1, 2.5, true, at.NewObject("gone", 1), "z")
+		l.Pop()
+		l.Delete(4, 3)
+		l.Pop()
+		l.SetTF("#4", v)
+		if l.Count() != 5 || l.TypeOf(2) != at.TypeNil || l.Get(3) != nil {
+			panic(fmt.Sprintf("the slots SetTF padded between the old end and #4 do not hold nil: the list is %s", l.String()))
+		}
+		return slot{l: l, idx: 4}
+	}},
 	{"object.SetTF-through-nil-field", func(v any) slot {
 		return slot{l: at.NewObject("a", nil).SetTF(".a#0", v).GetList("a"), idx: 0}
 	}},
